@@ -20,6 +20,14 @@ pub fn insert_op2(_g: &mut G, id: Id, k: KindTag, script: Script) -> Op {
     }
 }
 
+fn repl_spec(g: &mut G) -> ChildSpec {
+    match g.rng.below(6) {
+        0 | 1 => ChildSpec::Timer(Deadline::In(g.rng.range(0, 20) * crate::gen::MS)),
+        2 | 3 => ChildSpec::SameFd,
+        _ => ChildSpec::Sock,
+    }
+}
+
 pub fn cause_op2(g: &mut G, id: Id, k: KindTag) -> Option<Op> {
     match k {
         KindTag::Executor if g.rng.chance(1, 60) => {
@@ -72,8 +80,8 @@ pub fn cause_op2(g: &mut G, id: Id, k: KindTag) -> Option<Op> {
         KindTag::Transient => Some(match g.rng.below(10) {
             0 => Op::TrRemove(id),
             1 => Op::TrRemoveLazy(id),
-            2 => Op::TrReplace(id, if g.rng.chance(2, 3) { ChildSpec::Sock } else { ChildSpec::Timer(Deadline::In(g.rng.range(0, 20) * crate::gen::MS)) }),
-            3 => Op::TrReplaceLazy(id, if g.rng.chance(2, 3) { ChildSpec::Sock } else { ChildSpec::Timer(Deadline::In(g.rng.range(0, 20) * crate::gen::MS)) }),
+            2 => Op::TrReplace(id, repl_spec(g)),
+            3 => Op::TrReplaceLazy(id, repl_spec(g)),
             4 => Op::TrMap(id),
             5 if g.p.name == "C18" || g.p.scripted_faults => Op::TrChildFail(id, g.rng.range(1, 2) as u8),
             _ => Op::PeerWrite(id, 1),
